@@ -130,8 +130,23 @@ def _listify(ctx):
         ex2, obs2 = add_to_ctx(ctx, c2, callees2)
     finally:
         P.Prims.register_defaults = orig
+    from ..contracts import collapse as CL
+
+    def reg3(self):
+        orig(self)
+        CL.register_models_groups(self)
+
+    n3 = 0
+    P.Prims.register_defaults = reg3
+    try:
+        for c3 in CL.all_extract_unknown_groups():
+            ex3, obs3 = add_to_ctx(ctx, c3, {})
+            n3 += len(obs3)
+    finally:
+        P.Prims.register_defaults = orig
     from ..pyvc import conformance
 
     conformance.add_to_ctx(ctx, ["_unique"])
     return (f" listify_groups: {len(obs)} obligations (the labels a block found are handed on as NumPy scalars of the labels' own dtype, one per label, in order); _find_unique_groups: {len(obs2)} obligations "
-            "(the labels of a combine step are exactly the non-missing labels its blocks found, each once, ascending, or the placeholder NaN).")
+            f"(the labels of a combine step are exactly the non-missing labels its blocks found, each once, ascending, or the placeholder NaN); _extract_unknown_groups: {n3} obligations "
+            "(the lazy labels array is one task reading 'groups' of the first block of the reduced result, one chunk of unknown size, announced with the labels' dtype).")
